@@ -16,7 +16,7 @@
 From Coq Require Import ZArith List Lia.
 Import ListNotations.
 From Mds Require Import Stree.StreeModel Stree.StreeSpec Stree.StreeProofsSet Stree.CursorModel Stree.CursorSpec
-  Stree.CursorProofs.
+  Stree.CursorProofs Stree.CursorProofsOrder.
 
 (* Every history of Next/Prev/Left/Right/Up/Min/Max, from any cursor inside any tree (ordering is
    not needed: these are facts about positions), for any zero key: no panic, no fuel exhaustion,
@@ -89,6 +89,45 @@ Theorem C03_left_right_ordered : forall (T : Type) (zero : T) (cmp : T -> T -> Z
 Proof. exact left_right_ordered. Qed.
 Print Assumptions C03_left_right_ordered.
 
+(* Next in the words of the property text.  In a search tree under a lawful comparison, from a
+   valid cursor with key x: Next does not fail and stays inside the tree; HasNext answers exactly
+   whether the cursor is still valid after Next; if it is, its key y is a key of the tree, greater
+   than x, and not above any other key greater than x (the next larger key of the set); if it is
+   not, no key of the tree is greater than x. *)
+Theorem C03_next_successor : forall (T : Type) (cmp : T -> T -> Z), total_preorder cmp ->
+  forall (zero : T) (t : tree T) (c : cursor) (x : T),
+  sorted cmp (inorder t) -> wf T t c -> valid c = true -> key zero t c = Ok x ->
+  exists c', next t c = Ok c' /\ wf T t c' /\ has_next t c = Ok (valid c') /\
+    if valid c'
+    then exists y, key zero t c' = Ok y /\ In y (inorder t) /\ (cmp x y < 0)%Z /\
+                   (forall z, In z (inorder t) -> (cmp x z < 0)%Z -> (cmp y z <= 0)%Z)
+    else forall z, In z (inorder t) -> (cmp z x <= 0)%Z.
+Proof. exact next_successor. Qed.
+Print Assumptions C03_next_successor.
+
+(* Prev: the next smaller key, HasPrev predicting it, invalid exactly at the least key *)
+Theorem C03_prev_predecessor : forall (T : Type) (cmp : T -> T -> Z), total_preorder cmp ->
+  forall (zero : T) (t : tree T) (c : cursor) (x : T),
+  sorted cmp (inorder t) -> wf T t c -> valid c = true -> key zero t c = Ok x ->
+  exists c', prev t c = Ok c' /\ wf T t c' /\ has_prev t c = Ok (valid c') /\
+    if valid c'
+    then exists y, key zero t c' = Ok y /\ In y (inorder t) /\ (cmp y x < 0)%Z /\
+                   (forall z, In z (inorder t) -> (cmp z x < 0)%Z -> (cmp z y <= 0)%Z)
+    else forall z, In z (inorder t) -> (cmp x z <= 0)%Z.
+Proof. exact prev_predecessor. Qed.
+Print Assumptions C03_prev_predecessor.
+
+(* "All tree shapes reachable by operation histories": every tree of every state that any history
+   of New (any balance factor, any initial keys) / Add / Replace / Remove / Clear / Clone of the
+   C01 tree model reaches, under any depth-limit function, is a search tree — the hypothesis
+   [sorted cmp (inorder t)] of the theorems above and below.  (The navigation theorems
+   C03_history/C03_inorder_stop/C03_root/C03_invalid_identity need no hypothesis on the tree.) *)
+Theorem C03_reachable_sorted : forall (T : Type) (cmp : T -> T -> Z), total_preorder cmp ->
+  forall (limit : Z -> Z -> Z) (ops : list (StreeModel.op T)),
+  Forall (fun tr => sorted cmp (inorder (root tr))) (exec_from cmp limit [] ops).
+Proof. exact reachable_sorted. Qed.
+Print Assumptions C03_reachable_sorted.
+
 (* Operations on an invalid or nil cursor: every move returns the cursor unchanged, Clone returns
    it, Key is the zero key, every Has* is false, Inorder yields nothing — in any tree. *)
 Theorem C03_invalid_identity : forall (T : Type) (zero : T) (t : tree T) (c : cursor) (m : move),
@@ -150,4 +189,23 @@ Proof. vm_compute. split; reflexivity. Qed.
 
 Example C03_inorder_stop_example :
   cinorder ex_tree (CAt []) (fun (acc : list Z) x => (x :: acc, Nat.ltb (length acc) 1)) [] = Ok [2%Z; 1%Z].
+Proof. vm_compute. reflexivity. Qed.
+
+Example C03_next_successor_example :
+  next ex_tree (CAt [L; R]) = Ok (CAt []) /\ has_next ex_tree (CAt [L; R]) = Ok true /\ key 0%Z ex_tree (CAt []) = Ok 3%Z /\
+  next ex_tree (CAt [R]) = Ok CEmpty /\ has_next ex_tree (CAt [R]) = Ok false.
+Proof. vm_compute. repeat split; reflexivity. Qed.
+
+Example C03_prev_predecessor_example :
+  prev ex_tree (CAt [R]) = Ok (CAt []) /\ has_prev ex_tree (CAt [R]) = Ok true /\
+  prev ex_tree (CAt [L]) = Ok CEmpty /\ has_prev ex_tree (CAt [L]) = Ok false.
+Proof. vm_compute. repeat split; reflexivity. Qed.
+
+(* a history that builds a 5-key vine at beta = 1000 (no rebalancing), removes a key with two
+   children and replaces one: the reached tree, and it is sorted *)
+Example C03_reachable_sorted_example :
+  map (fun tr => inorder (root tr))
+      (exec_from Z.sub (fun _ n => n + 1)%Z []
+         [ONew 1000 [] []; OAdd 0 1; OAdd 0 5; OAdd 0 3; OAdd 0 4; OAdd 0 2; ORemove 0 3; OReplace 0 5]%Z)
+  = [[1; 2; 4; 5]%Z].
 Proof. vm_compute. reflexivity. Qed.
